@@ -644,6 +644,8 @@ func (v Value) opNeq(b Value) Value { return Bool(!v.Equals(b)) }
 
 func (v Value) Equals(b Value) bool {
 	switch {
+	case v.t == TypeNil && b.t != TypeNil: // nil == x is x == nil
+		return b.Equals(v)
 	case v.t == TypeBool:
 		return v.num == b.num
 	case (v.t & TypeFloat64) > 0:
